@@ -165,6 +165,6 @@ let handle (line : string) : string =
   | "K" -> handle_k f
   | "P" -> handle_p f
   | "W" -> handle_w f
-  | "H" -> handle_h f
+  | "H" | "M" | "N" -> handle_h f  (* M, N: the same keyset, the handle built through keyset.Manager *)
   | "GENFAIL" -> "genfail-not-expected"
   | _ -> failwith "case kind"
